@@ -1,0 +1,17 @@
+//go:build verif
+
+package router
+
+// Contracts for the deductive checker in /verif (comment-only file, no declarations).
+
+// ---- cache.go ------------------------------------------------------------------------------
+
+//@ func cacheKey(q *dnsmsg.Question, mark string) (b pool.Buffer)
+//@   props C07
+//@   requires q != nil && len(q.Name) <= 254
+//@   modifies nothing
+//@   ensures [C07:len] len(b) == len(q.Name) + 4 + len(mark) && fresh(b)
+//@   ensures [C07:name] bytesEq(b, 0, q.Name, 0, len(q.Name))
+//@   ensures [C07:class] BE16(b, len(q.Name)) == uint16(q.Class)
+//@   ensures [C07:type] BE16(b, len(q.Name)+2) == uint16(q.Type)
+//@   ensures [C07:mark] forall(j, 0, len(mark), b[len(q.Name)+4+j] == mark[j])
